@@ -52,8 +52,8 @@ func (c *tdCall) finished() bool {
 
 type tdCtx struct {
 	s       *sim
-	started bool // the scenario started the blocked callers itself
-	recPre  bool // record also the callers that returned before the injection (scenario t1-exhausted)
+	started bool  // the scenario started the blocked callers itself
+	recPre  bool  // record also the callers that returned before the injection (scenario t1-exhausted)
 	downAt  []int // sides that must be down before the injection (the handshake failed: the connect call closed them)
 	calls   []*tdCall
 	writers [2]*tdCall
